@@ -146,4 +146,14 @@ def real_seed(rng):
         return 0
     if r < 0.25:
         return 2**64 + rng.randint(0, 10**6)
+    if r < 0.32:
+        return "seed-%d" % rng.randint(0, 99)       # str and float seeds are documented seeds of get_prng as well
+    if r < 0.38:
+        return rng.randint(0, 99) + 0.5
     return rng.randint(1, 10**6)
+
+
+def seed_int(seed):
+    """a deterministic 32-bit integer derived from any seed (for RandomState twins and harness-side choices)"""
+    import zlib
+    return seed % 2**32 if isinstance(seed, int) else zlib.crc32(repr(seed).encode())
